@@ -203,23 +203,33 @@ func c19census(k *mon.Case, before int, what string) {
 	if runtime.NumGoroutine() <= before {
 		return
 	}
-	deadline := time.Now().Add(2 * time.Second)
-	for {
+	// A goroutine counts as left behind when it is still there after 2 s of
+	// polling (and at least 200 polls, in case this process was not scheduled
+	// for a while).  One that is still running or runnable at that point is
+	// given 20 s more: only a goroutine that stays blocked, or never finishes,
+	// is a leak.
+	start := time.Now()
+	for polls := 0; ; polls++ {
 		runtime.Gosched()
 		if runtime.NumGoroutine() <= before {
 			k.Class("census:goroutines-finished-after-return")
 			return
 		}
 		fresh := map[string]string{}
+		busy := false
 		for id, fn := range c19builderGoroutines() {
 			if !c19leaked[id] {
 				fresh[id] = fn
+				if strings.Contains(fn, "[running]") || strings.Contains(fn, "[runnable]") {
+					busy = true
+				}
 			}
 		}
 		if len(fresh) == 0 {
 			return // the extra goroutines are not the library's
 		}
-		if time.Now().After(deadline) {
+		el := time.Since(start)
+		if polls >= 200 && ((el > 2*time.Second && !busy) || el > 22*time.Second) {
 			fn := ""
 			for id, f := range fresh {
 				c19leaked[id] = true
@@ -227,7 +237,7 @@ func c19census(k *mon.Case, before int, what string) {
 					fn = f
 				}
 			}
-			k.Fail("leak", "c19:goroutine-leak:"+what+":"+fn, "%d goroutine(s) of the builder package are still alive 2 s after Parse returned: %v", len(fresh), fresh)
+			k.Fail("leak", "c19:goroutine-leak:"+what+":"+fn, "%d goroutine(s) of the builder package are still alive %.1f s after Parse returned: %v", len(fresh), el.Seconds(), fresh)
 			return
 		}
 		time.Sleep(time.Millisecond)
@@ -495,7 +505,7 @@ func runC19(c *mon.Ctx) {
 		}
 		k.DistinctBytes([]byte(text))
 		// is the description a fixed point?  (recorded, not judged)
-		if back, err := builder.Parse(ft.f, text); err == nil {
+		if back, err, ok := c19parse(k, ft.f, text, "roundtrip"); ok && err == nil {
 			if c19explain(ft.f, tp.tt, back) == text {
 				k.Class("explain-fixed-point")
 			} else {
